@@ -136,7 +136,7 @@ Definition origin (ld ext : list (bytes * bytes)) (k v : bytes) : Prop := In (k,
 Definition get_ok (ld ext : list (bytes * bytes)) (g : get) : Prop :=
   is_ph (g_key g) = false /\
   match g_st g with
-  | GSLock id | GSLoad id => is_ph id = true
+  | GSLock id | GSLoad id | GSInstall id => is_ph id = true
   | GSStore id v => is_ph id = true /\ is_ph v = false /\ In (g_key g, v) ld
   | GSUnlock id v _ => is_ph id = true /\ is_ph v = false
   | GSDone (ROk v) => is_ph v = false /\ origin ld ext (g_key g) v
@@ -163,7 +163,7 @@ Proof. intros H1 H2 [H|H]; [left; apply H1, H|right; apply H2, H]. Qed.
 Lemma get_ok_mono ld ext ld' ext' g : incl ld ld' -> incl ext ext' -> get_ok ld ext g -> get_ok ld' ext' g.
 Proof.
   intros H1 H2 [Hk H]. split; [exact Hk|].
-  destruct (g_st g) as [| | | | | | | | |[v|v e]]; auto.
+  destruct (g_st g) as [| | | | | | | | |[v|v e]|]; auto.
   - destruct H as (A & B & C). auto.
   - destruct H as (A & B). split; [exact A|]. eapply origin_mono; eauto.
 Qed.
@@ -223,7 +223,7 @@ Proof. unfold enter. destruct st; cbn; auto. Qed.
 
 Lemma get_ok_state ld ext g g' : g_key g' = g_key g -> get_ok ld ext g ->
   (match g_st g' with
-   | GSLock id | GSLoad id => is_ph id = true
+   | GSLock id | GSLoad id | GSInstall id => is_ph id = true
    | GSStore id v => is_ph id = true /\ is_ph v = false /\ In (g_key g, v) ld
    | GSUnlock id v _ => is_ph id = true /\ is_ph v = false
    | GSDone (ROk v) => is_ph v = false /\ origin ld ext (g_key g) v
@@ -268,7 +268,7 @@ Qed.
 
 Lemma get_ok_set ld ext g st : get_ok ld ext g ->
   (match st with
-   | GSLock id | GSLoad id => is_ph id = true
+   | GSLock id | GSLoad id | GSInstall id => is_ph id = true
    | GSStore id v => is_ph id = true /\ is_ph v = false /\ In (g_key g, v) ld
    | GSUnlock id v _ => is_ph id = true /\ is_ph v = false
    | GSDone (ROk v) => is_ph v = false /\ origin ld ext (g_key g) v
@@ -279,7 +279,7 @@ Proof. intros Hg H. eapply (get_ok_state ld ext g); [reflexivity|exact Hg|exact 
 
 Lemma get_ok_enter ld ext g st : get_ok ld ext g ->
   (match st with
-   | GSLock id | GSLoad id => is_ph id = true
+   | GSLock id | GSLoad id | GSInstall id => is_ph id = true
    | GSStore id v => is_ph id = true /\ is_ph v = false /\ In (g_key g, v) ld
    | GSUnlock id v _ => is_ph id = true /\ is_ph v = false
    | GSDone (ROk v) => is_ph v = false /\ origin ld ext (g_key g) v
@@ -344,25 +344,14 @@ Proof.
     destruct (nth_error (a_gets s) g) as [gg|] eqn:Hg; [|discriminate].
     pose proof (Forall_nth _ _ _ _ V3 Hg) as Gok.
     destruct (g_st gg) eqn:Est; try discriminate.
-    destruct (nth_error (a_cls s) (g_cl gg)) as [cl|] eqn:Hc; [|discriminate].
-    pose proof (Forall_nth _ _ _ _ V2 Hc) as [Hid Hcache].
-    destruct (cl_id cl) as [id|] eqn:Eid.
-    + injection HR as <- _. apply vinv_with_get; [exact HV|]. apply get_ok_set; [exact Gok|]. apply Hid. reflexivity.
-    + destruct fail.
-      * injection HR as <- _. apply vinv_with_get; [exact HV|]. apply get_ok_set; [exact Gok|reflexivity].
-      * assert (HV2 : vinv (write s (sset (a_store s) newid [] (a_now s + cttl)) newid false)).
-        { apply vinv_write; [exact HV|]. apply store_ok_sset; [exact V1|]. intros Hk. congruence. }
-        pose proof (write_fields s (sset (a_store s) newid [] (a_now s + cttl)) newid false) as F.
-        remember (write s (sset (a_store s) newid [] (a_now s + cttl)) newid false) as s2 eqn:Es2. clear Es2.
-        destruct F as (F1 & F2 & F3 & F4 & F5 & _).
-        injection HR as <- _.
-        destruct HV2 as [W1 W2 W3].
-        constructor; cbn [with_get a_store a_cls a_gets a_loaded a_ext].
-        -- exact W1.
-        -- apply Forall_upd; [exact W2|]. rewrite F4, F5. split; cbn [cl_id cl_cache cl_prev].
-           ++ intros id E. injection E as <-. exact HL.
-           ++ exact Hcache.
-        -- apply Forall_upd; [exact W3|]. rewrite F4, F5. apply get_ok_set; [exact Gok|exact HL].
+    destruct fail.
+    + injection HR as <- _. apply vinv_with_get; [exact HV|]. apply get_ok_set; [exact Gok|reflexivity].
+    + assert (HV2 : vinv (write s (sset (a_store s) newid [] (a_now s + cttl)) newid false)).
+      { apply vinv_write; [exact HV|]. apply store_ok_sset; [exact V1|]. intros Hk. congruence. }
+      pose proof (write_fields s (sset (a_store s) newid [] (a_now s + cttl)) newid false) as F.
+      remember (write s (sset (a_store s) newid [] (a_now s + cttl)) newid false) as s2 eqn:Es2. clear Es2.
+      destruct F as (F1 & F2 & F3 & F4 & F5 & _).
+      injection HR as <- _. apply vinv_with_get; [exact HV2|]. rewrite F4, F5. apply get_ok_set; [exact Gok|exact HL].
   - (* ALock *)
     destruct (nth_error (a_gets s) g) as [gg|] eqn:Hg; [|discriminate].
     pose proof (Forall_nth _ _ _ _ V3 Hg) as Gok.
@@ -519,6 +508,30 @@ Proof.
     destruct (cl_id cl) as [id|] eqn:Eid; [|discriminate]. injection HR as <- _.
     pose proof (Forall_nth _ _ _ _ V2 Hc) as [Hid Hcache].
     apply vinv_write; [exact HV|]. apply store_ok_sset; [exact V1|]. intros Hk. rewrite (Hid id Eid) in Hk. discriminate.
+  - (* AKeepReuse *)
+    destruct (nth_error (a_gets s) g) as [gg|] eqn:Hg; [|discriminate].
+    pose proof (Forall_nth _ _ _ _ V3 Hg) as Gok.
+    destruct (g_st gg) eqn:Est; try discriminate.
+    destruct (nth_error (a_cls s) (g_cl gg)) as [cl|] eqn:Hc; [|discriminate].
+    pose proof (Forall_nth _ _ _ _ V2 Hc) as [Hid Hcache].
+    destruct (cl_id cl) as [id|] eqn:Eid; [|discriminate].
+    injection HR as <- _. apply vinv_with_get; [exact HV|]. apply get_ok_set; [exact Gok|]. apply Hid. reflexivity.
+  - (* AInstall *)
+    destruct (nth_error (a_gets s) g) as [gg|] eqn:Hg; [|discriminate].
+    pose proof (Forall_nth _ _ _ _ V3 Hg) as Gok.
+    destruct (g_st gg) eqn:Est; try discriminate.
+    destruct (nth_error (a_cls s) (g_cl gg)) as [cl|] eqn:Hc; [|discriminate].
+    pose proof (Forall_nth _ _ _ _ V2 Hc) as [Hid Hcache].
+    assert (Hnew : is_ph newid = true) by (destruct Gok as [_ G]; rewrite Est in G; exact G).
+    destruct (cl_id cl) as [id|] eqn:Eid.
+    + injection HR as <- _. apply vinv_with_get; [exact HV|]. apply get_ok_set; [exact Gok|]. apply Hid. reflexivity.
+    + injection HR as <- _.
+      constructor; cbn [with_get a_store a_cls a_gets a_loaded a_ext].
+      * exact V1.
+      * apply Forall_upd; [exact V2|]. split; cbn [cl_id cl_cache cl_prev].
+        -- intros id E. injection E as <-. exact Hnew.
+        -- exact Hcache.
+      * apply Forall_upd; [exact V3|]. apply get_ok_set; [exact Gok|exact Hnew].
 Qed.
 
 Lemma vinv_run cttl : forall ls s s', vinv s -> Forall label_ok ls -> arun cttl s ls = Some s' -> vinv s'.
@@ -587,7 +600,7 @@ Qed.
 
 Lemma not_holding_states st id : holding st id ->
   st <> GSRead /\ st <> GSKeep /\ (forall x, st <> GSLock x) /\ (forall x, st <> GSProbe x) /\
-  (forall x, st <> GSRelease x) /\ (forall x, st <> GSWait x) /\ (forall r, st <> GSDone r).
+  (forall x, st <> GSRelease x) /\ (forall x, st <> GSWait x) /\ (forall r, st <> GSDone r) /\ (forall x, st <> GSInstall x).
 Proof. intros [->|[[v ->]|[v [e ->]]]]; repeat split; intros; discriminate. Qed.
 
 (** a step that changes neither the store, nor the lock ghost, nor the key/state of any Get that holds *)
@@ -706,9 +719,9 @@ Proof.
   (* a Get in a state that does not hold a lock *)
   assert (NH : forall gi g, nth_error (a_gets s) gi = Some g ->
                (g_st g = GSRead \/ g_st g = GSKeep \/ (exists x, g_st g = GSLock x) \/ (exists x, g_st g = GSProbe x) \/
-                (exists x, g_st g = GSRelease x) \/ (exists x, g_st g = GSWait x)) -> forall id, ~ holding (g_st g) id).
-  { intros gi g _ H id Hh. destruct (not_holding_states _ _ Hh) as (A & B & C & D & E & F & G).
-    destruct H as [H|[H|[[x H]|[[x H]|[[x H]|[x H]]]]]]; rewrite H in *; congruence. }
+                (exists x, g_st g = GSRelease x) \/ (exists x, g_st g = GSWait x) \/ (exists x, g_st g = GSInstall x)) -> forall id, ~ holding (g_st g) id).
+  { intros gi g _ H id Hh. destruct (not_holding_states _ _ Hh) as (A & B & C & D & E & F & G & G2).
+    destruct H as [H|[H|[[x H]|[[x H]|[[x H]|[[x H]|[x H]]]]]]]; rewrite H in *; congruence. }
   destruct l; cbn [astep_r label_ok] in HR, HL.
   - (* ANewClient *)
     injection HR as <- _. apply (linv_frame s); auto. intros gi g id Hn _. exists g. auto.
@@ -730,25 +743,22 @@ Proof.
   - (* AKeep *)
     destruct (nth_error (a_gets s) g) as [gg|] eqn:Hg; [|discriminate].
     destruct (g_st gg) eqn:Est; try discriminate.
-    destruct (nth_error (a_cls s) (g_cl gg)) as [cl|] eqn:Hc; [|discriminate].
-    destruct (cl_id cl) as [id|] eqn:Eid.
+    destruct fail.
     + injection HR as <- _. eapply linv_with_get_nonholder; [exact HI|exact Hg|]. eapply NH; eauto.
-    + destruct fail.
-      * injection HR as <- _. eapply linv_with_get_nonholder; [exact HI|exact Hg|]. eapply NH; eauto.
-      * pose proof (write_fields s (sset (a_store s) newid [] (a_now s + cttl)) newid false) as F.
-        pose proof (write_lock s (sset (a_store s) newid [] (a_now s + cttl)) newid false) as FL.
-        remember (write s (sset (a_store s) newid [] (a_now s + cttl)) newid false) as s2 eqn:Es2. clear Es2.
-        destruct F as (F1 & F2 & F3 & F4 & F5 & _). injection HR as <- _.
-        apply (linv_change s _ HI); cbn [with_get a_store a_lock a_gets].
-        -- rewrite F1. apply uniq_sset, U.
-        -- rewrite FL. exact ND.
-        -- rewrite FL, F1, F3. intros k gj Hin. split; [exact Hin|]. split.
-           ++ apply sget_sset_other. apply is_ph_neq; [exact HL|]. eapply lock_key_not_ph; eauto.
-           ++ intros g0 Hn. exists g0. split; [|auto].
-              rewrite nth_error_upd_other; [exact Hn|]. intros ->.
-              rewrite Hg in Hn. injection Hn as <-.
-              destruct (holder_in_lock_state s k gj gg HI Hin Hg) as (id & Hh).
-              eapply NH; eauto.
+    + pose proof (write_fields s (sset (a_store s) newid [] (a_now s + cttl)) newid false) as F.
+      pose proof (write_lock s (sset (a_store s) newid [] (a_now s + cttl)) newid false) as FL.
+      remember (write s (sset (a_store s) newid [] (a_now s + cttl)) newid false) as s2 eqn:Es2. clear Es2.
+      destruct F as (F1 & F2 & F3 & F4 & F5 & _). injection HR as <- _.
+      apply (linv_change s _ HI); cbn [with_get a_store a_lock a_gets].
+      * rewrite F1. apply uniq_sset, U.
+      * rewrite FL. exact ND.
+      * rewrite FL, F1, F3. intros k gj Hin. split; [exact Hin|]. split.
+        -- apply sget_sset_other. apply is_ph_neq; [exact HL|]. eapply lock_key_not_ph; eauto.
+        -- intros g0 Hn. exists g0. split; [|auto].
+           rewrite nth_error_upd_other; [exact Hn|]. intros ->.
+           rewrite Hg in Hn. injection Hn as <-.
+           destruct (holder_in_lock_state s k gj gg HI Hin Hg) as (id & Hh).
+           eapply NH; eauto.
   - (* ALock *)
     destruct (nth_error (a_gets s) g) as [gg|] eqn:Hg; [|discriminate].
     destruct (g_st gg) eqn:Est; try discriminate.
@@ -959,6 +969,22 @@ Proof.
     + intros k gj Hin. rewrite FL in Hin. split; [exact Hin|]. split.
       * rewrite F1. apply sget_sset_other. apply is_ph_neq; [apply Hid, Eid|]. eapply lock_key_not_ph; eauto.
       * intros g0 Hn. exists g0. rewrite F3. auto.
+  - (* AKeepReuse *)
+    destruct (nth_error (a_gets s) g) as [gg|] eqn:Hg; [|discriminate].
+    destruct (g_st gg) eqn:Est; try discriminate.
+    destruct (nth_error (a_cls s) (g_cl gg)) as [cl|] eqn:Hc; [|discriminate].
+    destruct (cl_id cl) as [id|] eqn:Eid; [|discriminate].
+    injection HR as <- _. eapply linv_with_get_nonholder; [exact HI|exact Hg|]. eapply NH; eauto.
+  - (* AInstall *)
+    destruct (nth_error (a_gets s) g) as [gg|] eqn:Hg; [|discriminate].
+    destruct (g_st gg) eqn:Est; try discriminate.
+    destruct (nth_error (a_cls s) (g_cl gg)) as [cl|] eqn:Hc; [|discriminate].
+    destruct (cl_id cl) as [id|] eqn:Eid.
+    + injection HR as <- _. eapply linv_with_get_nonholder; [exact HI|exact Hg|]. eapply NH; eauto 10.
+    + injection HR as <- _.
+      match goal with |- linv (with_get ?S _ _) => assert (HI2 : linv S) end.
+      { apply (linv_frame s); auto. intros gi g0 id Hn _. exists g0. auto. }
+      eapply linv_with_get_nonholder; [exact HI2|exact Hg|]. eapply NH; eauto 10.
 Qed.
 
 Lemma both_run cttl : forall ls s s', vinv s -> linv s -> Forall label_ok ls -> arun cttl s ls = Some s' -> vinv s' /\ linv s'.
@@ -1046,8 +1072,6 @@ Proof.
     destruct (cached_read s (g_cl gg) cl (g_key gg) hit) as [[[v s2] stale]|] eqn:Ecr; [|discriminate].
     injection HR as <- _. destruct (cached_read_frame _ _ _ _ _ _ _ _ Ecr) as (_ & F2 & _). cbn [with_get a_lock]. rewrite F2. exact Hin.
   - destruct (nth_error (a_gets s) g) as [gg|]; [|discriminate]. destruct (g_st gg); try discriminate.
-    destruct (nth_error (a_cls s) (g_cl gg)) as [cl|]; [|discriminate].
-    destruct (cl_id cl); [injection HR as <- _; exact Hin|].
     destruct fail; injection HR as <- _; [exact Hin|]. cbn [with_get a_lock]. rewrite ?write_lock. exact Hin.
   - destruct (nth_error (a_gets s) g) as [gg|]; [|discriminate]. destruct (g_st gg); try discriminate.
     destruct fail; [injection HR as <- _; exact Hin|]. unfold srv_lock in HR.
@@ -1091,6 +1115,12 @@ Proof.
   - destruct (nth_error (a_cls s) c); [|discriminate]. injection HR as <- _. exact Hin.
   - destruct (nth_error (a_cls s) c) as [cl|]; [|discriminate]. destruct (cl_id cl); [|discriminate].
     injection HR as <- _. rewrite ?write_lock. exact Hin.
+  - destruct (nth_error (a_gets s) g) as [gg|]; [|discriminate]. destruct (g_st gg); try discriminate.
+    destruct (nth_error (a_cls s) (g_cl gg)) as [cl|]; [|discriminate].
+    destruct (cl_id cl); [|discriminate]. injection HR as <- _. exact Hin.
+  - destruct (nth_error (a_gets s) g) as [gg|]; [|discriminate]. destruct (g_st gg); try discriminate.
+    destruct (nth_error (a_cls s) (g_cl gg)) as [cl|]; [|discriminate].
+    destruct (cl_id cl); injection HR as <- _; exact Hin.
 Qed.
 
 (** ---- a lock left by a dead client is released ---- *)
@@ -1164,9 +1194,23 @@ Proof.
 Qed.
 
 Lemma step_keep cttl s gi g cl newid : focus s gi g cl -> g_st g = GSKeep ->
-  exists s1 g1 cl1 id, astep cttl s (AKeep gi newid false) = Some s1 /\ focus s1 gi g1 cl1 /\
-    a_store s1 = (match cl_id cl with Some _ => a_store s | None => sset (a_store s) newid [] (a_now s + cttl) end) /\
-    a_now s1 = a_now s /\ id = (match cl_id cl with Some x => x | None => newid end) /\ cl_id cl1 = Some id /\
+  exists s1 g1, astep cttl s (AKeep gi newid false) = Some s1 /\ focus s1 gi g1 cl /\
+    a_store s1 = sset (a_store s) newid [] (a_now s + cttl) /\ a_now s1 = a_now s /\
+    g_key g1 = g_key g /\ g_cl g1 = g_cl g /\ g_fn g1 = g_fn g /\ g_ttl g1 = g_ttl g /\ g_st g1 = GSInstall newid.
+Proof.
+  intros [Hg Hc] Hs. unfold astep. cbn [astep_r]. rewrite Hg, Hs.
+  assert (Lg : gi < length (a_gets s)) by (eapply nth_error_lt; eauto).
+  pose proof (write_fields s (sset (a_store s) newid [] (a_now s + cttl)) newid false) as (F1 & F2 & F3 & _ & _ & F6).
+  eexists; eexists. split; [reflexivity|]. split.
+  { split; cbn [with_get a_gets a_cls set_st g_cl]; [apply nth_error_upd_same; rewrite F3; exact Lg|rewrite F2; exact Hc]. }
+  cbn [with_get a_store a_now set_st g_key g_cl g_fn g_ttl g_st]. repeat split; auto.
+Qed.
+
+(** the second critical section of keepalive: the id the Get goes on with is the one installed in the client *)
+Lemma step_install cttl s gi g cl newid : focus s gi g cl -> g_st g = GSInstall newid ->
+  exists s1 g1 cl1 id, astep cttl s (AInstall gi) = Some s1 /\ focus s1 gi g1 cl1 /\
+    a_store s1 = a_store s /\ a_now s1 = a_now s /\
+    id = (match cl_id cl with Some x => x | None => newid end) /\ cl_id cl1 = Some id /\
     g_key g1 = g_key g /\ g_cl g1 = g_cl g /\ g_fn g1 = g_fn g /\ g_ttl g1 = g_ttl g /\ g_st g1 = GSLock id.
 Proof.
   intros [Hg Hc] Hs. unfold astep. cbn [astep_r]. rewrite Hg, Hs, Hc.
@@ -1176,9 +1220,8 @@ Proof.
   - eexists; eexists; exists cl; exists id. split; [reflexivity|]. split.
     { split; cbn [with_get a_gets a_cls set_st g_cl]; [apply nth_error_upd_same; exact Lg|exact Hc]. }
     cbn [with_get a_store a_now set_st g_key g_cl g_fn g_ttl g_st]. repeat split; auto.
-  - pose proof (write_fields s (sset (a_store s) newid [] (a_now s + cttl)) newid false) as (F1 & F2 & F3 & _ & _ & F6).
-    eexists; eexists; eexists; exists newid. split; [reflexivity|]. split.
-    { split; cbn [with_get a_gets a_cls set_st g_cl]; apply nth_error_upd_same; [rewrite F3; exact Lg|rewrite F2; exact Lc]. }
+  - eexists; eexists; eexists; exists newid. split; [reflexivity|]. split.
+    { split; cbn [with_get a_gets a_cls set_st g_cl]; apply nth_error_upd_same; [exact Lg|exact Lc]. }
     cbn [with_get a_store a_now set_st g_key g_cl g_fn g_ttl g_st cl_id]. repeat split; auto.
 Qed.
 
@@ -1196,20 +1239,19 @@ Qed.
 
 (** DEAD LOCK RELEASED.  From ANY state in which the key carries the placeholder of a client whose liveness
     key is gone, a Get of another client that is about to read — with a loader, and nothing of that client
-    cached for the two keys — gets through on its own six steps: it sees the placeholder, finds the holder
-    dead, deletes the placeholder, misses, takes the lock and starts its loader. *)
+    cached for the two keys — gets through on its own seven steps: it sees the placeholder, finds the holder
+    dead, deletes the placeholder, misses, goes through keepalive, takes the lock and starts its loader. *)
 Theorem dead_lock_released cttl s gi g cl ph newid :
   focus s gi g cl -> g_st g = GSRead -> g_fn g = true ->
   sget (a_store s) (g_key g) = Some ph -> is_ph ph = true -> sget (a_store s) ph = None ->
   is_ph (g_key g) = false -> is_ph newid = true ->
-  (forall id, cl_id cl = Some id -> is_ph id = true) ->
   exists s' g' id,
     arun cttl s [ARead gi false false; AProbe gi false false; ARelease gi true; ARead gi false false;
-                 AKeep gi newid false; ALock gi false] = Some s' /\
+                 AKeep gi newid false; AInstall gi; ALock gi false] = Some s' /\
     nth_error (a_gets s') gi = Some g' /\ g_st g' = GSLoad id /\
     sget (a_store s') (g_key g) = Some id /\ In (g_key g, gi) (a_lock s').
 Proof.
-  intros F0 Hs Hfn Hk Hph Hdead Hkey Hnew Hids.
+  intros F0 Hs Hfn Hk Hph Hdead Hkey Hnew.
   destruct (step_read_miss cttl s gi g cl F0 Hs) as (s1 & g1 & cl1 & R1 & F1 & S1 & N1 & I1 & K1 & C1 & Fn1 & T1 & St1).
   rewrite Hk in St1. unfold after_value in St1. rewrite Hph in St1.
   destruct (step_probe_miss cttl s1 gi g1 cl1 ph F1 St1) as (s2 & g2 & cl2 & R2 & F2 & S2 & N2 & I2 & K2 & C2 & Fn2 & T2 & St2).
@@ -1218,16 +1260,14 @@ Proof.
   rewrite K2, K1, S2, S1, Hk, bytes_eqb_refl in S3.
   destruct (step_read_miss cttl s3 gi g3 cl3 F3 St3) as (s4 & g4 & cl4 & R4 & F4 & S4 & N4 & I4 & K4 & C4 & Fn4 & T4 & St4).
   rewrite K3, K2, K1, S3, sget_sdel_same, Fn3, Fn2, Fn1, Hfn in St4.
-  destruct (step_keep cttl s4 gi g4 cl4 newid F4 St4) as (s5 & g5 & cl5 & id & R5 & F5 & S5 & N5 & Eid & I5 & K5 & C5 & Fn5 & T5 & St5).
-  assert (Hidph : is_ph id = true).
-  { subst id. destruct (cl_id cl4) as [x|] eqn:E; [|exact Hnew]. apply Hids. congruence. }
-  assert (Hfree : sget (a_store s5) (g_key g5) = None).
-  { rewrite K5, K4, K3, K2, K1, S5, S4, S3.
-    destruct (cl_id cl4); [apply sget_sdel_same|].
+  destruct (step_keep cttl s4 gi g4 cl4 newid F4 St4) as (s5 & g5 & R5 & F5 & S5 & N5 & K5 & C5 & Fn5 & T5 & St5).
+  destruct (step_install cttl s5 gi g5 cl4 newid F5 St5) as (s5' & g5' & cl5 & id & R5' & F5' & S5' & N5' & Eid & I5 & K5' & C5' & Fn5' & T5' & St5').
+  assert (Hfree : sget (a_store s5') (g_key g5') = None).
+  { rewrite K5', K5, K4, K3, K2, K1, S5', S5, S4, S3.
     rewrite sget_sset_other; [apply sget_sdel_same|]. apply is_ph_neq; assumption. }
-  destruct (step_lock_free cttl s5 gi g5 cl5 id F5 St5 Hfree) as (s6 & g6 & R6 & G6 & St6 & S6 & L6).
-  exists s6, g6, id. cbn [arun]. rewrite R1, R2, R3, R4, R5, R6.
-  rewrite K5, K4, K3, K2, K1 in S6, L6. auto.
+  destruct (step_lock_free cttl s5' gi g5' cl5 id F5' St5' Hfree) as (s6 & g6 & R6 & G6 & St6 & S6 & L6).
+  exists s6, g6, id. cbn [arun]. rewrite R1, R2, R3, R4, R5, R5', R6.
+  rewrite K5', K5, K4, K3, K2, K1 in S6, L6. auto.
 Qed.
 
 (** ---- no lost wake-up: a waiting Get is always told ---- *)
@@ -1410,28 +1450,16 @@ Proof.
   - (* AKeep *)
     destruct (nth_error (a_gets s) g) as [gg|] eqn:Hg; [|discriminate].
     destruct (g_st gg) eqn:Est; try discriminate.
-    destruct (nth_error (a_cls s) (g_cl gg)) as [cl|] eqn:Hc; [|discriminate].
     assert (Hkey : g_wait_closed gg = true \/ pending s (g_cl gg) (g_key gg)) by (eapply W2; [exact Hg|rewrite Est; reflexivity]).
-    destruct (cl_id cl) as [id|] eqn:Eid.
-    + injection HR as <- _. eapply winv_with_get; [exact HW|exact Hg|reflexivity|reflexivity|intros _; exact Hkey|intros ph [H|H]; discriminate].
-    + destruct fail.
-      * injection HR as <- _. eapply winv_with_get; [exact HW|exact Hg|reflexivity|reflexivity|discriminate|intros ph [H|H]; discriminate].
-      * pose proof (write_fields s (sset (a_store s) newid [] (a_now s + cttl)) newid false) as F.
-        pose proof (fun c k => write_pending s (sset (a_store s) newid [] (a_now s + cttl)) newid false c k) as FP.
-        remember (write s (sset (a_store s) newid [] (a_now s + cttl)) newid false) as s2 eqn:Es2. clear Es2.
-        destruct F as (F1 & F2 & F3 & F4 & F5 & _). injection HR as <- _.
-        constructor; unfold pending in *; cbn [with_get a_cls a_gets a_track a_infl].
-        -- intros c cl0 k x Hc0 Hin. apply FP. rewrite F2 in Hc0. rewrite nth_error_upd in Hc0.
-           destruct (Nat.eqb_spec (g_cl gg) c) as [<-|N].
-           ++ destruct (Nat.ltb (g_cl gg) (length (a_cls s))); [|discriminate]. injection Hc0 as <-. cbn [cl_cache] in Hin. eapply W1; eauto.
-           ++ eapply W1; eauto.
-        -- intros gi g0 Hg0 Ha. rewrite F3 in Hg0. rewrite nth_error_upd in Hg0. destruct (Nat.eqb_spec g gi) as [<-|N].
-           ++ destruct (Nat.ltb g (length (a_gets s))); [|discriminate]. injection Hg0 as <-. cbn [set_st g_wait_closed g_cl g_key].
-              destruct Hkey; [left; assumption|right; apply FP; assumption].
-           ++ destruct (W2 gi g0 Hg0 Ha); [left; assumption|right; apply FP; assumption].
-        -- intros gi g0 ph Hg0 Ha. rewrite F3 in Hg0. rewrite nth_error_upd in Hg0. destruct (Nat.eqb_spec g gi) as [<-|N].
-           ++ destruct (Nat.ltb g (length (a_gets s))); [|discriminate]. injection Hg0 as <-. destruct Ha; discriminate.
-           ++ destruct (W3 gi g0 ph Hg0 Ha); [left; assumption|right; apply FP; assumption].
+    destruct fail.
+    + injection HR as <- _. eapply winv_with_get; [exact HW|exact Hg|reflexivity|reflexivity|discriminate|intros ph [H|H]; discriminate].
+    + pose proof (write_fields s (sset (a_store s) newid [] (a_now s + cttl)) newid false) as F.
+      pose proof (fun c k => write_pending s (sset (a_store s) newid [] (a_now s + cttl)) newid false c k) as FP.
+      remember (write s (sset (a_store s) newid [] (a_now s + cttl)) newid false) as s2 eqn:Es2. clear Es2.
+      destruct F as (F1 & F2 & F3 & F4 & F5 & _). injection HR as <- _.
+      assert (HW2 : winv s2) by (apply (winv_mono s); [exact HW|exact F2|exact F3|exact FP]).
+      eapply winv_with_get; [exact HW2|rewrite F3; exact Hg|reflexivity|reflexivity| |intros ph [H|H]; discriminate].
+      intros _. cbn [set_st g_wait_closed]. destruct Hkey; [left; assumption|right; apply FP; assumption].
   - (* ALock *)
     destruct (nth_error (a_gets s) g) as [gg|] eqn:Hg; [|discriminate].
     destruct (g_st gg) eqn:Est; try discriminate.
@@ -1599,6 +1627,27 @@ Proof.
     destruct (cl_id cl) as [id|]; [|discriminate]. injection HR as <- _.
     destruct (write_fields s (sset (a_store s) id [] (a_now s + cttl)) id false) as (_ & F2 & F3 & _).
     apply (winv_mono s); auto. intros; apply write_pending; assumption.
+  - (* AKeepReuse *)
+    destruct (nth_error (a_gets s) g) as [gg|] eqn:Hg; [|discriminate].
+    destruct (g_st gg) eqn:Est; try discriminate.
+    destruct (nth_error (a_cls s) (g_cl gg)) as [cl|] eqn:Hc; [|discriminate].
+    assert (Hkey : g_wait_closed gg = true \/ pending s (g_cl gg) (g_key gg)) by (eapply W2; [exact Hg|rewrite Est; reflexivity]).
+    destruct (cl_id cl) as [id|] eqn:Eid; [|discriminate].
+    injection HR as <- _. eapply winv_with_get; [exact HW|exact Hg|reflexivity|reflexivity|intros _; exact Hkey|intros ph [H|H]; discriminate].
+  - (* AInstall *)
+    destruct (nth_error (a_gets s) g) as [gg|] eqn:Hg; [|discriminate].
+    destruct (g_st gg) eqn:Est; try discriminate.
+    destruct (nth_error (a_cls s) (g_cl gg)) as [cl|] eqn:Hc; [|discriminate].
+    assert (Hkey : g_wait_closed gg = true \/ pending s (g_cl gg) (g_key gg)) by (eapply W2; [exact Hg|rewrite Est; reflexivity]).
+    destruct (cl_id cl) as [id|] eqn:Eid.
+    + injection HR as <- _. eapply winv_with_get; [exact HW|exact Hg|reflexivity|reflexivity|intros _; exact Hkey|intros ph [H|H]; discriminate].
+    + injection HR as <- _.
+      match goal with |- winv (with_get ?S _ _) => assert (HW2 : winv S) end.
+      { constructor; unfold pending; cbn [a_cls a_gets a_track a_infl]; auto.
+        intros c' cl' k x Hc' Hin. rewrite nth_error_upd in Hc'. destruct (Nat.eqb_spec (g_cl gg) c') as [<-|N].
+        - destruct (Nat.ltb (g_cl gg) (length (a_cls s))); [|discriminate]. injection Hc' as <-. cbn [cl_cache] in Hin. eapply W1; eauto.
+        - eapply W1; eauto. }
+      eapply winv_with_get; [exact HW2|exact Hg|reflexivity|reflexivity|intros _; exact Hkey|intros ph [H|H]; discriminate].
 Qed.
 
 Lemma winv_run cttl : forall ls s s', winv s -> arun cttl s ls = Some s' -> winv s'.
@@ -1650,4 +1699,311 @@ Proof.
   eexists; eexists. split; [exact R1|]. split; [reflexivity|].
   cbn [with_get a_gets]. split; [apply nth_error_upd_same; eapply nth_error_lt; eauto|].
   apply enter_fields.
+Qed.
+
+(** ---- the id a Get locks with is the id installed in its client ----
+
+    Several Gets of one client may race in keepalive: each sees c.id == "" and SETs a marker of its own; only the
+    first one through the second critical section installs its marker as c.id (and starts the goroutine that
+    refreshes it), the others go on with the installed one.  So, as long as the client does not lose its
+    connection ([ALost]), every Get that locks, loads, stores or unlocks does it under the client's CURRENT id —
+    the one [ARefresh] keeps alive — and never under a private marker nobody refreshes. *)
+
+Definition uses (st : gstate) (id : bytes) : Prop := st = GSLock id \/ holding st id.
+
+Definition idinv (c : nat) (s : astate) : Prop :=
+  forall gi g id, nth_error (a_gets s) gi = Some g -> g_cl g = c -> uses (g_st g) id ->
+    exists cl, nth_error (a_cls s) c = Some cl /\ cl_id cl = Some id.
+
+Definition has_id (s : astate) (c : nat) (id : bytes) : Prop :=
+  exists cl, nth_error (a_cls s) c = Some cl /\ cl_id cl = Some id.
+
+Lemma idinv_gen c s s' :
+  idinv c s ->
+  (forall id, has_id s c id -> has_id s' c id) ->
+  (forall gi g' id, nth_error (a_gets s') gi = Some g' -> g_cl g' = c -> uses (g_st g') id ->
+     (exists g, nth_error (a_gets s) gi = Some g /\ g_cl g = c /\ uses (g_st g) id) \/ has_id s' c id) ->
+  idinv c s'.
+Proof.
+  intros HI Hc Hg gi g' id Hn Hcl Hu.
+  destruct (Hg gi g' id Hn Hcl Hu) as [(g & Hn0 & Hcl0 & Hu0)|H]; [|exact H].
+  apply Hc. exact (HI gi g id Hn0 Hcl0 Hu0).
+Qed.
+
+Lemma idinv_same c s s' : idinv c s -> a_cls s' = a_cls s -> a_gets s' = a_gets s -> idinv c s'.
+Proof. intros HI Ec Eg gi g id Hn. unfold idinv in HI. rewrite Ec. rewrite Eg in Hn. exact (HI gi g id Hn). Qed.
+
+Lemma idinv_with_get c s gi g g' :
+  idinv c s -> nth_error (a_gets s) gi = Some g -> g_cl g' = g_cl g ->
+  (forall id, uses (g_st g') id -> uses (g_st g) id \/ (g_cl g = c -> has_id s c id)) ->
+  idinv c (with_get s gi g').
+Proof.
+  intros HI Hg Ec Hu. apply (idinv_gen c s); [exact HI|intros id H; exact H|].
+  intros gj g0 id Hn Hcl Hus. cbn [with_get a_gets] in Hn. rewrite nth_error_upd in Hn.
+  destruct (Nat.eqb_spec gi gj) as [->|N].
+  - destruct (Nat.ltb gj (length (a_gets s))); [|discriminate]. injection Hn as <-.
+    destruct (Hu id Hus) as [H|H].
+    + left. exists g. rewrite <- Ec. auto.
+    + right. apply H. rewrite <- Ec. exact Hcl.
+  - left. exists g0. auto.
+Qed.
+
+Lemma idinv_with_get_nouse c s gi g g' :
+  idinv c s -> nth_error (a_gets s) gi = Some g -> g_cl g' = g_cl g -> (forall id, ~ uses (g_st g') id) ->
+  idinv c (with_get s gi g').
+Proof. intros HI Hg Ec Hn. eapply idinv_with_get; eauto. intros id H. exfalso. eapply Hn; eauto. Qed.
+
+Ltac nouse := let U := fresh "U" in
+  intros ? U; destruct U as [U|[U|[[? U]|[? [? U]]]]]; cbn in U; discriminate.
+
+Lemma nouse_after_value x : forall id, ~ uses (after_value x) id.
+Proof. unfold after_value. destruct (is_ph x); nouse. Qed.
+
+Lemma has_id_upd_other s c c' cl' id cls' :
+  cls' = upd c' cl' (a_cls s) -> c' <> c ->
+  (exists cl, nth_error (a_cls s) c = Some cl /\ cl_id cl = Some id) ->
+  exists cl, nth_error cls' c = Some cl /\ cl_id cl = Some id.
+Proof. intros -> N (cl & H1 & H2). exists cl. rewrite nth_error_upd_other by exact N. auto. Qed.
+
+Lemma has_id_upd_keep (cls : list client) c c' cl0 cl' id :
+  nth_error cls c' = Some cl0 -> cl_id cl' = cl_id cl0 ->
+  (exists cl, nth_error cls c = Some cl /\ cl_id cl = Some id) ->
+  exists cl, nth_error (upd c' cl' cls) c = Some cl /\ cl_id cl = Some id.
+Proof.
+  intros H0 E (cl & H1 & H2). destruct (Nat.eq_dec c' c) as [->|N].
+  - exists cl'. rewrite nth_error_upd_same by (eapply nth_error_lt; eauto). split; [reflexivity|]. congruence.
+  - exists cl. rewrite nth_error_upd_other by exact N. auto.
+Qed.
+
+Lemma cached_read_id s c0 cl k hit v s1 stale c :
+  nth_error (a_cls s) c0 = Some cl -> cached_read s c0 cl k hit = Some (v, s1, stale) -> idinv c s -> idinv c s1.
+Proof.
+  intros Hc H HI. unfold cached_read in H. destruct hit.
+  - destruct (clookup (cl_cache cl) k); [inversion H; subst; exact HI|].
+    destruct (clookup (cl_prev cl) k); [inversion H; subst; exact HI|discriminate].
+  - inversion H; subst. clear H. apply (idinv_gen c s); [exact HI| |].
+    + intros id Hid. unfold has_id. cbn [a_cls]. eapply has_id_upd_keep; [exact Hc|reflexivity|exact Hid].
+    + intros gi g' id Hn Hcl Hu. left. exists g'. auto.
+Qed.
+
+Lemma idinv_step cttl c s l s' : idinv c s -> l <> ALost c -> astep cttl s l = Some s' -> idinv c s'.
+Proof.
+  intros HI HL HS. unfold astep in HS.
+  destruct (astep_r cttl s l) as [[s1 ob]|] eqn:HR; [|discriminate]. injection HS as ->.
+  destruct l; cbn [astep_r] in HR.
+  - (* ANewClient *)
+    injection HR as <- _. apply (idinv_gen c s); [exact HI| |].
+    + intros id (cl & H1 & H2). exists cl. cbn [a_cls]. rewrite nth_error_app1 by (eapply nth_error_lt; eauto). auto.
+    + intros gi g' id Hn Hcl Hu. left. exists g'. auto.
+  - (* AStartGet *)
+    destruct (nth_error (a_cls s) c0); [|discriminate]. injection HR as <- _.
+    apply (idinv_gen c s); [exact HI|intros id H; exact H|].
+    intros gi g' id Hn Hcl Hu. cbn [a_gets] in Hn. destruct (Nat.ltb_spec gi (length (a_gets s))) as [L|L].
+    + rewrite nth_error_app1 in Hn by exact L. left. exists g'. auto.
+    + rewrite nth_error_app2 in Hn by exact L. destruct (gi - length (a_gets s)) as [|n]; cbn in Hn; [|destruct n; discriminate].
+      injection Hn as <-. exfalso. revert Hu. cbn [g_st]. generalize id. nouse.
+  - (* ARead *)
+    destruct (nth_error (a_gets s) g) as [gg|] eqn:Hg; [|discriminate].
+    destruct (g_st gg) eqn:Est; try discriminate.
+    destruct (nth_error (a_cls s) (g_cl gg)) as [cl|] eqn:Hc; [|discriminate].
+    destruct fail.
+    + injection HR as <- _. eapply idinv_with_get_nouse; [exact HI|exact Hg|reflexivity|]. cbn [set_st g_st]. nouse.
+    + destruct (cached_read s (g_cl gg) cl (g_key gg) hit) as [[[v s2] stale]|] eqn:Ecr; [|discriminate].
+      injection HR as <- _.
+      pose proof (cached_read_id _ _ _ _ _ _ _ _ c Hc Ecr HI) as HI2.
+      destruct (cached_read_frame _ _ _ _ _ _ _ _ Ecr) as (_ & _ & F3 & _).
+      match goal with |- idinv c (with_get s2 g (enter ?G ?ST)) =>
+        destruct (enter_fields G ST) as (_ & Es & Ec) end.
+      eapply idinv_with_get_nouse; [exact HI2|rewrite F3; exact Hg|exact Ec|]. rewrite Es.
+      destruct v as [x|]; [apply nouse_after_value|]. destruct (g_fn gg); nouse.
+  - (* AKeep *)
+    destruct (nth_error (a_gets s) g) as [gg|] eqn:Hg; [|discriminate].
+    destruct (g_st gg) eqn:Est; try discriminate.
+    destruct fail.
+    + injection HR as <- _. eapply idinv_with_get_nouse; [exact HI|exact Hg|reflexivity|]. cbn [set_st g_st]. nouse.
+    + pose proof (write_fields s (sset (a_store s) newid [] (a_now s + cttl)) newid false) as F.
+      remember (write s (sset (a_store s) newid [] (a_now s + cttl)) newid false) as s2 eqn:Es2. clear Es2.
+      destruct F as (F1 & F2 & F3 & _). injection HR as <- _.
+      eapply idinv_with_get_nouse; [apply (idinv_same c s); [exact HI|exact F2|exact F3]|rewrite F3; exact Hg|reflexivity|].
+      cbn [set_st g_st]. nouse.
+  - (* ALock *)
+    destruct (nth_error (a_gets s) g) as [gg|] eqn:Hg; [|discriminate].
+    destruct (g_st gg) eqn:Est; try discriminate.
+    destruct fail.
+    + injection HR as <- _. eapply idinv_with_get_nouse; [exact HI|exact Hg|reflexivity|]. cbn [set_st g_st]. nouse.
+    + unfold srv_lock in HR. destruct (sget (a_store s) (g_key gg)) as [x|] eqn:Ex.
+      * injection HR as <- _. destruct (enter_fields gg (after_value x)) as (_ & Es & Ec).
+        eapply idinv_with_get_nouse; [exact HI|exact Hg|exact Ec|]. rewrite Es. apply nouse_after_value.
+      * pose proof (write_fields s (sset (a_store s) (g_key gg) id (a_now s + g_ttl gg)) (g_key gg) false) as F.
+        remember (write s (sset (a_store s) (g_key gg) id (a_now s + g_ttl gg)) (g_key gg) false) as s2 eqn:Es2. clear Es2.
+        destruct F as (F1 & F2 & F3 & _). injection HR as <- _.
+        eapply idinv_with_get; [apply (idinv_same c s); [exact HI|exact F2|exact F3]|cbn [a_gets]; rewrite F3; exact Hg|reflexivity|].
+        cbn [set_st g_st]. intros id0 U. left. rewrite Est.
+        destruct U as [U|[U|[[? U]|[? [? U]]]]]; try discriminate. injection U as <-. left. reflexivity.
+  - (* ALoad *)
+    destruct (nth_error (a_gets s) g) as [gg|] eqn:Hg; [|discriminate].
+    destruct (g_st gg) eqn:Est; try discriminate.
+    destruct res as [v|]; injection HR as <- _.
+    + apply (idinv_same c (with_get s g (set_st gg (GSStore id v)))); [|reflexivity|reflexivity].
+      eapply idinv_with_get; [exact HI|exact Hg|reflexivity|]. cbn [set_st g_st]. intros id0 U. left. rewrite Est.
+      destruct U as [U|[U|[[? U]|[? [? U]]]]]; try discriminate. injection U as <- _. right. left. reflexivity.
+    + eapply idinv_with_get; [exact HI|exact Hg|reflexivity|]. cbn [set_st g_st]. intros id0 U. left. rewrite Est.
+      destruct U as [U|[U|[[? U]|[? [? U]]]]]; try discriminate. injection U as <- _ _. right. left. reflexivity.
+  - (* AStore *)
+    destruct (nth_error (a_gets s) g) as [gg|] eqn:Hg; [|discriminate].
+    destruct (g_st gg) eqn:Est; try discriminate.
+    destruct (if executed then srv_setkey (a_now s) (a_store s) (g_key gg) id v (g_ttl gg) else (a_store s, false)) as [st' ok].
+    assert (HI1 : idinv c (if ok then write s st' (g_key gg) true else s)).
+    { destruct ok; [|exact HI]. destruct (write_fields s st' (g_key gg) true) as (_ & F2 & F3 & _). apply (idinv_same c s); assumption. }
+    assert (Hg1 : nth_error (a_gets (if ok then write s st' (g_key gg) true else s)) g = Some gg).
+    { destruct ok; [|exact Hg]. destruct (write_fields s st' (g_key gg) true) as (_ & F2 & F3 & _). rewrite F3. exact Hg. }
+    remember (if ok then write s st' (g_key gg) true else s) as s2 eqn:Es2. clear Es2.
+    destruct (executed && replied); injection HR as <- _.
+    + destruct (enter_fields gg (after_value v)) as (_ & Es & Ec).
+      eapply idinv_with_get_nouse; [apply (idinv_same c s2); [exact HI1|reflexivity|reflexivity]|exact Hg1|exact Ec|].
+      rewrite Es. apply nouse_after_value.
+    + eapply idinv_with_get; [exact HI1|exact Hg1|reflexivity|]. cbn [set_st g_st]. intros id0 U. left. rewrite Est.
+      destruct U as [U|[U|[[? U]|[? [? U]]]]]; try discriminate. injection U as <- _ _. right. right. left. eauto.
+  - (* AUnlock *)
+    destruct (nth_error (a_gets s) g) as [gg|] eqn:Hg; [|discriminate].
+    destruct (g_st gg) eqn:Est; try discriminate.
+    destruct (if executed then srv_delkey (a_store s) (g_key gg) id else (a_store s, false)) as [st' ok].
+    assert (HI1 : idinv c (if ok then write s st' (g_key gg) true else s)).
+    { destruct ok; [|exact HI]. destruct (write_fields s st' (g_key gg) true) as (_ & F2 & F3 & _). apply (idinv_same c s); assumption. }
+    assert (Hg1 : nth_error (a_gets (if ok then write s st' (g_key gg) true else s)) g = Some gg).
+    { destruct ok; [|exact Hg]. destruct (write_fields s st' (g_key gg) true) as (_ & F2 & F3 & _). rewrite F3. exact Hg. }
+    remember (if ok then write s st' (g_key gg) true else s) as s2 eqn:Es2. clear Es2.
+    injection HR as <- _.
+    eapply idinv_with_get_nouse; [apply (idinv_same c s2); [exact HI1|reflexivity|reflexivity]|exact Hg1|reflexivity|].
+    cbn [set_st g_st]. nouse.
+  - (* AProbe *)
+    destruct (nth_error (a_gets s) g) as [gg|] eqn:Hg; [|discriminate].
+    destruct (g_st gg) eqn:Est; try discriminate.
+    destruct (nth_error (a_cls s) (g_cl gg)) as [cl|] eqn:Hc; [|discriminate].
+    destruct fail.
+    + injection HR as <- _. eapply idinv_with_get_nouse; [exact HI|exact Hg|reflexivity|]. cbn [set_st g_st]. nouse.
+    + destruct (cached_read s (g_cl gg) cl ph hit) as [[[v s2] stale]|] eqn:Ecr; [|discriminate].
+      injection HR as <- _.
+      pose proof (cached_read_id _ _ _ _ _ _ _ _ c Hc Ecr HI) as HI2.
+      destruct (cached_read_frame _ _ _ _ _ _ _ _ Ecr) as (_ & _ & F3 & _).
+      eapply idinv_with_get_nouse; [exact HI2|rewrite F3; exact Hg|reflexivity|]. cbn [set_st g_st]. destruct v; nouse.
+  - (* ARelease *)
+    destruct (nth_error (a_gets s) g) as [gg|] eqn:Hg; [|discriminate].
+    destruct (g_st gg) eqn:Est; try discriminate.
+    destruct (if executed then srv_delkey (a_store s) (g_key gg) ph else (a_store s, false)) as [st' ok].
+    assert (HI1 : idinv c (if ok then write s st' (g_key gg) true else s)).
+    { destruct ok; [|exact HI]. destruct (write_fields s st' (g_key gg) true) as (_ & F2 & F3 & _). apply (idinv_same c s); assumption. }
+    assert (Hg1 : nth_error (a_gets (if ok then write s st' (g_key gg) true else s)) g = Some gg).
+    { destruct ok; [|exact Hg]. destruct (write_fields s st' (g_key gg) true) as (_ & F2 & F3 & _). rewrite F3. exact Hg. }
+    remember (if ok then write s st' (g_key gg) true else s) as s2 eqn:Es2. clear Es2.
+    injection HR as <- _. destruct (enter_fields gg GSRead) as (_ & Es & Ec).
+    eapply idinv_with_get_nouse; [exact HI1|exact Hg1|exact Ec|]. cbn [enter set_st set_flags g_st]. nouse.
+  - (* AWake *)
+    destruct (nth_error (a_gets s) g) as [gg|] eqn:Hg; [|discriminate].
+    destruct (g_st gg) eqn:Est; try discriminate.
+    destruct (g_wait_closed gg || g_ph_closed gg); [|discriminate]. injection HR as <- _.
+    destruct (enter_fields gg GSRead) as (_ & Es & Ec).
+    eapply idinv_with_get_nouse; [exact HI|exact Hg|exact Ec|]. cbn [enter set_st set_flags g_st]. nouse.
+  - (* ACtx *)
+    destruct (nth_error (a_gets s) g) as [gg|] eqn:Hg; [|discriminate].
+    destruct (g_st gg) eqn:Est; try discriminate. injection HR as <- _.
+    eapply idinv_with_get_nouse; [exact HI|exact Hg|reflexivity|]. cbn [set_st g_st]. nouse.
+  - (* AInval *)
+    destruct (nth_error (a_cls s) c0) as [cl|] eqn:Hc; [|discriminate].
+    destruct (forallb (fun k => mem_pair (c0, k) (a_infl s)) ks); [|discriminate]. injection HR as <- _.
+    apply (idinv_gen c s); [exact HI| |].
+    + intros id Hid. unfold has_id. cbn [a_cls]. eapply has_id_upd_keep; [exact Hc|reflexivity|exact Hid].
+    + intros gi g' id Hn Hcl Hu. cbn [a_gets] in Hn. rewrite nth_error_map in Hn.
+      destruct (nth_error (a_gets s) gi) as [g1|] eqn:Hg1; [|discriminate]. injection Hn as <-.
+      destruct (close_waits_fields c0 ks g1) as (_ & Es & Ec). rewrite Es in Hu. rewrite Ec in Hcl. left. exists g1. auto.
+  - (* ADel *)
+    destruct (sget (a_store s) key); injection HR as <- _; [|exact HI].
+    destruct (write_fields s (sdel (a_store s) key) key true) as (_ & F2 & F3 & _). apply (idinv_same c s); assumption.
+  - (* ASet *)
+    injection HR as <- _.
+    destruct (write_fields s (sset (a_store s) key v (if (ttl =? 0)%Z then 0%Z else (a_now s + ttl)%Z)) key true) as (_ & F2 & F3 & _).
+    apply (idinv_same c s); assumption.
+  - (* ATick *)
+    destruct (dt <? 0)%Z; [discriminate|].
+    destruct (touch_all (a_track s) (a_infl s) (gone_keys (a_store s) (expire (a_now s + dt) (a_store s)))) as [tr infl].
+    injection HR as <- _. apply (idinv_same c s); [exact HI|reflexivity|reflexivity].
+  - (* AClose *)
+    destruct (nth_error (a_cls s) c0) as [cl|] eqn:Hc; [|discriminate]. injection HR as <- _.
+    apply (idinv_gen c s); [exact HI| |].
+    + intros id Hid. unfold has_id. cbn [a_cls]. eapply has_id_upd_keep; [exact Hc|reflexivity|exact Hid].
+    + intros gi g' id Hn Hcl Hu. left. exists g'. auto.
+  - (* ALost *)
+    assert (N : c0 <> c) by congruence.
+    destruct (nth_error (a_cls s) c0) as [cl|] eqn:Hc; [|discriminate]. injection HR as <- _.
+    apply (idinv_gen c s); [exact HI| |].
+    + intros id (cl0 & H1 & H2). exists cl0. cbn [a_cls]. rewrite nth_error_upd_other by exact N. auto.
+    + intros gi g' id Hn Hcl Hu. cbn [a_gets] in Hn. rewrite nth_error_map in Hn.
+      destruct (nth_error (a_gets s) gi) as [g1|] eqn:Hg1; [|discriminate]. injection Hn as <-.
+      destruct (close_all_fields c0 g1) as (_ & Es & Ec). rewrite Es in Hu. rewrite Ec in Hcl. left. exists g1. auto.
+  - (* ARefresh *)
+    destruct (nth_error (a_cls s) c0) as [cl|] eqn:Hc; [|discriminate].
+    destruct (cl_id cl) as [id|]; [|discriminate]. injection HR as <- _.
+    destruct (write_fields s (sset (a_store s) id [] (a_now s + cttl)) id false) as (_ & F2 & F3 & _).
+    apply (idinv_same c s); assumption.
+  - (* AKeepReuse *)
+    destruct (nth_error (a_gets s) g) as [gg|] eqn:Hg; [|discriminate].
+    destruct (g_st gg) eqn:Est; try discriminate.
+    destruct (nth_error (a_cls s) (g_cl gg)) as [cl|] eqn:Hc; [|discriminate].
+    destruct (cl_id cl) as [id|] eqn:Eid; [|discriminate]. injection HR as <- _.
+    eapply idinv_with_get; [exact HI|exact Hg|reflexivity|]. cbn [set_st g_st]. intros id0 U. right. intros <-.
+    destruct U as [U|[U|[[? U]|[? [? U]]]]]; try discriminate. injection U as <-. exists cl. auto.
+  - (* AInstall *)
+    destruct (nth_error (a_gets s) g) as [gg|] eqn:Hg; [|discriminate].
+    destruct (g_st gg) eqn:Est; try discriminate.
+    destruct (nth_error (a_cls s) (g_cl gg)) as [cl|] eqn:Hc; [|discriminate].
+    destruct (cl_id cl) as [id|] eqn:Eid; injection HR as <- _.
+    + eapply idinv_with_get; [exact HI|exact Hg|reflexivity|]. cbn [set_st g_st]. intros id0 U. right. intros <-.
+      destruct U as [U|[U|[[? U]|[? [? U]]]]]; try discriminate. injection U as <-. exists cl. auto.
+    + match goal with |- idinv c (with_get ?S _ _) => assert (HI2 : idinv c S) end.
+      { apply (idinv_gen c s); [exact HI| |].
+        - intros id (cl0 & H1 & H2). unfold has_id. cbn [a_cls]. destruct (Nat.eq_dec (g_cl gg) c) as [E|N].
+          + subst c. rewrite Hc in H1. injection H1 as <-. congruence.
+          + exists cl0. rewrite nth_error_upd_other by exact N. auto.
+        - intros gi g' id Hn Hcl Hu. left. exists g'. auto. }
+      eapply idinv_with_get; [exact HI2|exact Hg|reflexivity|]. cbn [set_st g_st]. intros id0 U. right. intros <-.
+      destruct U as [U|[U|[[? U]|[? [? U]]]]]; try discriminate. injection U as <-.
+      unfold has_id. cbn [a_cls]. eexists. split; [apply nth_error_upd_same; eapply nth_error_lt; eauto|reflexivity].
+Qed.
+
+Lemma idinv_init c now : idinv c (ainit now).
+Proof. intros gi g id Hn. destruct gi; discriminate. Qed.
+
+Lemma idinv_run cttl c : forall ls s s', idinv c s -> ~ In (ALost c) ls -> arun cttl s ls = Some s' -> idinv c s'.
+Proof.
+  induction ls as [|l ls IH]; intros s s' HI HN HR; cbn [arun] in HR.
+  - injection HR as <-. exact HI.
+  - destruct (astep cttl s l) as [s1|] eqn:E; [|discriminate].
+    eapply IH; [eapply idinv_step; [exact HI| |exact E]| |exact HR].
+    + intros ->. apply HN. left. reflexivity.
+    + intros H. apply HN. right. exact H.
+Qed.
+
+(** THE LOCK ID IS THE INSTALLED ID.  In every reachable state, a Get that is about to lock, or whose loader
+    runs, or that stores / unlocks, does so under the id that is installed in its client at that moment —
+    whatever raced in keepalive — provided the client has not lost its connection. *)
+Theorem lock_id_is_installed_id cttl now ls s gi g id :
+  arun cttl (ainit now) ls = Some s -> ~ In (ALost (g_cl g)) ls ->
+  nth_error (a_gets s) gi = Some g -> uses (g_st g) id ->
+  exists cl, nth_error (a_cls s) (g_cl g) = Some cl /\ cl_id cl = Some id.
+Proof.
+  intros HR HN Hg Hu.
+  exact (idinv_run cttl (g_cl g) ls _ _ (idinv_init _ now) HN HR gi g id Hg eq_refl Hu).
+Qed.
+
+(** … hence the refresh goroutine of that client extends exactly the marker the lock value points to *)
+Theorem refresh_extends_lock_id cttl now ls s gi g id :
+  arun cttl (ainit now) ls = Some s -> ~ In (ALost (g_cl g)) ls ->
+  nth_error (a_gets s) gi = Some g -> uses (g_st g) id ->
+  exists s', astep cttl s (ARefresh (g_cl g)) = Some s' /\ In (id, ([], a_now s + cttl)%Z) (a_store s').
+Proof.
+  intros HR HN Hg Hu.
+  destruct (lock_id_is_installed_id cttl now ls s gi g id HR HN Hg Hu) as (cl & Hc & Hid).
+  unfold astep. cbn [astep_r]. rewrite Hc, Hid. eexists. split; [reflexivity|].
+  destruct (write_fields s (sset (a_store s) id [] (a_now s + cttl)) id false) as (F1 & _). rewrite F1.
+  left. reflexivity.
 Qed.
